@@ -57,14 +57,14 @@ func (o goArrayObject) getValueIndex(index int64) (reflect.Value, bool) {
 	return reflect.Value{}, false
 }
 
-func (o goArrayObject) setValue(index int64, value Value) bool {
+func (o goArrayObject) setValue(rt *runtime, index int64, value Value) bool {
 	indexValue, exists := o.getValueIndex(index)
 	if !exists {
 		return false
 	}
 	reflectValue, err := value.toReflectValue(reflect.Indirect(o.value).Type().Elem())
 	if err != nil {
-		panic(err)
+		panic(rt.panicConversionError(err))
 	}
 	indexValue.Set(reflectValue)
 	return true
@@ -123,7 +123,7 @@ func goArrayDefineOwnProperty(obj *object, name string, descriptor property, thr
 	} else if index := stringToArrayIndex(name); index >= 0 {
 		goObj := obj.value.(*goArrayObject)
 		if goObj.writable {
-			if obj.value.(*goArrayObject).setValue(index, descriptor.value.(Value)) {
+			if obj.value.(*goArrayObject).setValue(obj.runtime, index, descriptor.value.(Value)) {
 				return true
 			}
 		}
